@@ -72,6 +72,72 @@ UnifyClause(c) ==
   ELSE IF Cardinality(AaParam(c)) # Cardinality(AaParamEnvs(c)) THEN "UnifierBacksEachSolutionOnce"
   ELSE "ok"
 
+
+(* ------------------------------------------------------------------------------------------------------------------ *)
+(* DESCRIPTIVE: Axis.unify as the library computes it today (fggs/indices.py), transcribed case by case.  It exists  *)
+(* to show at design level (R3, MC_AxisAlg!ModelUnifierIsMostGeneral) that the algorithm IS a most-general-unifier    *)
+(* procedure on every typed pair of the bound, and to report drift when the code stops following it.  It never gates. *)
+(* State threaded through: st = [sg |-> <<[id, t]>> bindings (latest first), nx |-> next fresh axis id, ok].           *)
+AuBound(st, id) == \E i \in DOMAIN st.sg : st.sg[i].id = id
+AuGet(st, id) == st.sg[CHOOSE i \in DOMAIN st.sg : st.sg[i].id = id].t
+RECURSIVE AuLookup(_, _)
+AuLookup(st, e) == IF e.k = "P" /\ AuBound(st, e.id) THEN AuLookup(st, AuGet(st, e.id)) ELSE e
+\* a SumAxis with nothing before or after it is just its term
+RECURSIVE AuStrip(_, _)
+AuStrip(st, e) == IF e.k = "S" /\ e.b = 0 /\ e.a = 0 THEN AuStrip(st, AuLookup(st, e.t)) ELSE e
+AuBind(st, id, t) == [st EXCEPT !.sg = <<[id |-> id, t |-> t]>> \o @]
+AuFail(st) == [st EXCEPT !.ok = FALSE]
+AuUnit == [k |-> "X", fs |-> <<>>]
+\* the smart constructor: nested products are flattened, a product of one factor is that factor
+AuFlat(fs) == FoldLeft(LAMBDA acc, f: IF f.k = "X" THEN acc \o f.fs ELSE Append(acc, f), <<>>, fs)
+AuProd(fs) == LET g == AuFlat(fs) IN IF Len(g) = 1 THEN g[1] ELSE [k |-> "X", fs |-> g]
+AuZero(e) == AxNumel(e) = 0
+RECURSIVE AuUnify(_, _, _), AuProdLoop(_, _, _), AuAllUnit(_, _)
+\* es, fs: the factor lists still to be matched, consumed FROM THE END (mixed radix: the last factor is least significant)
+AuProdLoop(st, es, fs) ==
+  IF ~st.ok THEN st
+  ELSE IF es = <<>> \/ fs = <<>> THEN AuAllUnit(st, es \o fs)
+  ELSE LET e9 == es[Len(es)]  f9 == fs[Len(fs)]
+           es1 == SubSeq(es, 1, Len(es) - 1)  fs1 == SubSeq(fs, 1, Len(fs) - 1)
+           m == AxNumel(e9)  n == AxNumel(f9) IN
+       IF m = n THEN AuProdLoop(AuUnify(st, e9, f9), es1, fs1)
+       ELSE IF m < n THEN (IF m = 0 \/ n % m # 0 THEN AuFail(st)
+                           ELSE LET kk == [k |-> "P", id |-> st.nx, n |-> n \div m]
+                                    st1 == AuUnify([st EXCEPT !.nx = @ + 1], f9, AuProd(<<kk, e9>>)) IN
+                                AuProdLoop(st1, es1, Append(fs1, kk)))
+       ELSE (IF n = 0 \/ m % n # 0 THEN AuFail(st)
+             ELSE LET kk == [k |-> "P", id |-> st.nx, n |-> m \div n]
+                      st1 == AuUnify([st EXCEPT !.nx = @ + 1], e9, AuProd(<<kk, f9>>)) IN
+                  AuProdLoop(st1, Append(es1, kk), fs1))
+AuAllUnit(st, rest) == FoldLeft(LAMBDA acc, e: IF acc.ok THEN AuUnify(acc, e, AuUnit) ELSE acc, st, rest)
+AuUnify(st, e0, f0) ==
+  IF ~st.ok THEN st
+  ELSE LET e == AuStrip(st, AuLookup(st, e0))  f == AuStrip(st, AuLookup(st, f0)) IN
+       IF e = f THEN st
+       ELSE IF e.k = "X" /\ f.k = "X" THEN (IF AuZero(e) THEN st ELSE AuProdLoop(st, e.fs, f.fs))
+       ELSE IF e.k = "S" /\ f.k = "S" THEN (IF e.b = f.b /\ e.a = f.a THEN AuUnify(st, e.t, f.t) ELSE AuFail(st))
+       ELSE IF e.k = "P" THEN AuBind(st, e.id, f)
+       ELSE IF f.k = "P" THEN AuBind(st, f.id, e)
+       ELSE IF e = AuUnit /\ f.k = "S" THEN (IF f.b = 0 /\ f.a = 0 THEN AuUnify(st, e, f.t) ELSE AuFail(st))
+       ELSE IF f = AuUnit /\ e.k = "S" THEN (IF e.b = 0 /\ e.a = 0 THEN AuUnify(st, f, e.t) ELSE AuFail(st))
+       ELSE AuFail(st)
+\* the lists es, fs unified pair by pair under one substitution, stopping at the first failure (as all(...) does)
+AuUnifyLists(es, fs, nx) ==
+  FoldLeft(LAMBDA acc, i: IF acc.ok THEN AuUnify(acc, es[i], fs[i]) ELSE acc, [sg |-> <<>>, nx |-> nx, ok |-> TRUE], BIota(Len(es)))
+\* the substitution applied to a term, to the end of every forwarding chain
+RECURSIVE AuApply(_, _)
+AuApply(st, e) ==
+  CASE e.k = "P" -> (IF AuBound(st, e.id) THEN AuApply(st, AuGet(st, e.id)) ELSE e)
+    [] e.k = "X" -> [k |-> "X", fs |-> [i \in DOMAIN e.fs |-> AuApply(st, e.fs[i])]]
+    [] e.k = "S" -> [k |-> "S", b |-> e.b, t |-> AuApply(st, e.t), a |-> e.a]
+\* the model's run presented like an observed case (UnifyClause applies to it)
+AuAsCase(es, fs) ==
+  LET X == AaFreeSeq(es) \cup AaFreeSeq(fs)
+      xs == SetToSeq(X)
+      st == AuUnifyLists(es, fs, 9000) IN
+  [es |-> es, fs |-> fs, ok |-> st.ok, xs |-> [i \in DOMAIN xs |-> [id |-> xs[i].id, n |-> xs[i].n]],
+   sg |-> [i \in DOMAIN xs |-> IF st.ok THEN AuApply(st, [k |-> "P", id |-> xs[i].id, n |-> xs[i].n]) ELSE [k |-> "P", id |-> xs[i].id, n |-> xs[i].n]]]
+
 \* -------------------------------------------------------------- antiunify
 (* c.gs : <<term>> the generalisations;  c.an : <<[id, n, l |-> term, r |-> term]>> the anti-substitution *)
 RECURSIVE AaSubst(_, _, _)
